@@ -30,6 +30,7 @@ EXPLANATION += " Also decided: every entry point exits clean on the connection a
 
 def run(ctx):
     model = ctx.model
+    shared.r_wire(ctx, "R06.wire")
     shared.r_collation(ctx, "R06.exact", ('nameplates', 'mailboxes', 'messages'),
                        'two applications whose ids differ only in case share their rows')
     shared.r_durable(ctx, "R06.durable", ("chan",),
